@@ -518,7 +518,7 @@ def isbuiltinsubtype(t: type) -> compat.TypeIs[type[BuiltIntypeT]]:
         >>> isbuiltintype(Mapping)
         False
     """
-    return issubclass(resolve_supertype(t), BUILTIN_TYPES_TUPLE)
+    return _safe_issubclass(origin(t), BUILTIN_TYPES_TUPLE)
 
 
 @compat.cache
@@ -533,7 +533,7 @@ def isstdlibsubtype(t: type) -> compat.TypeIs[type[STDLibtypeT]]:
         >>> isstdlibsubtype(MyDate)
         True
     """
-    return _safe_issubclass(resolve_supertype(t), STDLIB_TYPES_TUPLE)
+    return _safe_issubclass(origin(t), STDLIB_TYPES_TUPLE)
 
 
 def isbuiltininstance(o: tp.Any) -> compat.TypeIs[BuiltIntypeT]:
